@@ -275,11 +275,11 @@ def _outcome(fn):
         r = fn()
         return ("ok", compare.canon(r), r)
     except NotImplementedError as e:
-        return ("refused", "NotImplementedError", str(e)[:120])
+        return ("refused", "NotImplementedError", compare.msg(e, 120))
     except BaseException as e:  # noqa: BLE001
         if isinstance(e, (KeyboardInterrupt, SystemExit, executor.ProtocolError)):
             raise
-        return ("raise", type(e).__name__, str(e)[:160])
+        return ("raise", type(e).__name__, compare.msg(e, 160))
 
 
 def run_one(scen: Choices, sched: Choices, cls, cfg):
